@@ -267,12 +267,15 @@ def hybrid(cfg=None, reopen_ok=False):
         body_choices.append(reopen)
     body = st.lists(st.one_of(*body_choices), min_size=0, max_size=8)
     def assemble(bf, f, e, p, h, b, consistent):
+        if e and consistent == 'shared':
+            # the first EFI entry boots the very file the initial entry boots (one image, two entries)
+            e = [e[0], dict(e[1], b=0)] + e[2:]
         if consistent:
             # efi/mac flags that match the number of 0xef entries (the mismatch is the known finding hybrid-efi-count)
             n = len(e) // 2
             h = dict(h, efi=(True if n >= 1 else None), mac=(n == 2), pt=(None if n else h.get('pt')))
         return [bf, f] + e + p + [h] + b
-    return program(c, st.builds(assemble, bootfile, first, efi_part, pre, add_hybrid, body, st.sampled_from([True, True, True, False])))
+    return program(c, st.builds(assemble, bootfile, first, efi_part, pre, add_hybrid, body, st.sampled_from([True, True, True, 'shared', False])))
 
 
 _old_any_profile = any_profile
